@@ -11,11 +11,12 @@
    fuse.  Refuted by concrete accepted witnesses: fuse (4), swap, chunk (negative step; the step/chunk-size and
    loop-variable-in-bounds refutations became refusals with the fix commits on /repo), tile, hoist (2), induction (3).
    Proved under computable sufficient conditions as well: hoist (hoist_safe), induction (induction_safe).
-   Not proved (model + correspondence + refutation only): swap/tile soundness conditions. *)
+   Swap: proved for perfect 2-nests with literal bounds and a plain body under the SEMANTIC independence premise
+   swap_indep (same starting store; not lifted to program contexts).  Not proved: tile; a syntactic condition for swap. *)
 From Coq Require Import List ZArith Bool.
 Import ListNotations.
-From PV Require Import Fort.Syntax Fort.Sem Fort.Facts3 C05.Model C05.Equiv C05.HoistBound C05.Fold C05.Chunk C05.Fuse C05.Refuted
-  C05.HoistProofs C05.InductionProofs.
+From PV Require Import Fort.Syntax Fort.Sem Fort.Facts Fort.Facts3 C05.Model C05.Equiv C05.HoistBound C05.Fold C05.Chunk C05.Fuse C05.Refuted
+  C05.HoistProofs C05.InductionProofs C05.SwapProofs.
 Open Scope Z_scope.
 
 (* ---- HoistLoopBoundExprTrans: full (the three created symbols are distinct and not read in p) ---- *)
@@ -102,6 +103,26 @@ Proof. exact fuse_refuted_conditional_scalar. Qed.
 Print Assumptions C05_fuse_refuted_conditional_scalar.
 
 (* ---- LoopSwapTrans / LoopTiling2DTrans: no dependence test ---- *)
+(* perfect 2-nest, literal bounds, plain body not writing the DO variables; swap_indep = the iterations, each run
+   from the store the nest starts from, succeed, no iteration writes what another reads upward-exposed, only the DO
+   variables are written by several iterations (premise of Fort/Facts2.seq_runs_perm).  coq/C05/SwapProofs.v *)
+Theorem C05_swap_sound_partial : forall x1 x2 l1 h1 t1 l2 h2 t2 body gq seg' f st s' tr c,
+  x1 <> x2 -> ~ In x1 (wnames body) -> ~ In x2 (wnames body) -> plain body = true -> t2 <> 0 ->
+  swap_at (SDo x1 (ELit l1) (ELit h1) (ELit t1) [SDo x2 (ELit l2) (ELit h2) (ELit t2) body]) = Some seg' ->
+  swap_indep x1 x2 body gq (ivals l1 t1 0 (trip_count l1 h1 t1)) (ivals l2 t2 0 (trip_count l2 h2 t2)) st ->
+  exec f [SDo x1 (ELit l1) (ELit h1) (ELit t1) [SDo x2 (ELit l2) (ELit h2) (ELit t2) body]] st = Ok s' tr c ->
+  exists f' s'' tr', exec f' seg' st = Ok s'' tr' c /\ agree [x1; x2] s' s'' /\ vis tr' = vis tr.
+Proof. exact swap_sound_partial. Qed.
+Print Assumptions C05_swap_sound_partial.
+
+Example C05_swap_nonvacuous :
+  swap_at (SDo 1%nat (ELit 1) (ELit 2) (ELit 1) [SDo 0%nat (ELit 1) (ELit 2) (ELit 1) swap_ex_body]) =
+    Some [SDo 0%nat (ELit 1) (ELit 2) (ELit 1) [SDo 1%nat (ELit 1) (ELit 2) (ELit 1) swap_ex_body]] /\
+  plain swap_ex_body = true /\
+  swap_indep 1%nat 0%nat swap_ex_body 1 (ivals 1 1 0 (trip_count 1 2 1)) (ivals 1 1 0 (trip_count 1 2 1)) swap_ex_store.
+Proof. exact swap_nonvacuous. Qed.
+Print Assumptions C05_swap_nonvacuous.
+
 Theorem C05_swap_refuted : exists p path p', swap_apply path p = Some p' /\ ~ sim [1%nat; 0%nat] p p'.
 Proof. exact swap_refuted. Qed.
 Print Assumptions C05_swap_refuted.
